@@ -379,6 +379,7 @@ type Exec struct {
 	MaxDecisions  int
 	MaxConcretize int
 	NoMerge       bool
+	NoModelCache  bool
 
 	concrete map[string]uint64 // concrete-mode bindings for intrinsics (replay); nil in symbolic mode
 	spawned  []spawn
@@ -390,6 +391,7 @@ type Exec struct {
 	harness string
 	ghostT  int64
 	lastNow *smt.Term
+	model   map[string]uint64 // an assignment known to satisfy pc (nil if none is known)
 	redir   map[string]*ssa.Function
 }
 
@@ -411,11 +413,39 @@ func (x *Exec) assume(t *smt.Term) {
 		}
 		return
 	}
-	x.pc = append(x.pc, t)
+	x.addPC(t)
 }
 
 func (x *Exec) check(extra *smt.Term, evals []*smt.Term) (smt.Result, map[string]uint64) {
 	return x.S.Check(x.pc, extra, evals, evals != nil)
+}
+
+// evalModel evaluates t under the cached model; ok=false if there is no valid model.
+func (x *Exec) evalModel(t *smt.Term) (uint64, bool) {
+	if x.model == nil {
+		return 0, false
+	}
+	return smt.Eval(t, x.model, map[*smt.Term]uint64{}), true
+}
+
+// addPC appends a conjunct to the path condition, keeping the cached model only if it still satisfies it.
+func (x *Exec) addPC(t *smt.Term) {
+	x.pc = append(x.pc, t)
+	if x.model != nil {
+		if v, _ := x.evalModel(t); v != 1 {
+			x.model = nil
+		}
+	}
+}
+
+// checkM is check with model capture: a Sat answer refreshes the cached model when the query had no extra conjunct
+// or records the model of pc∧extra for the caller to adopt.
+func (x *Exec) checkM(extra *smt.Term) (smt.Result, map[string]uint64) {
+	if x.NoModelCache {
+		r, _ := x.S.Check(x.pc, extra, nil, false)
+		return r, nil
+	}
+	return x.S.Check(x.pc, extra, x.C.Vars, true)
 }
 
 // decide resolves a symbolic branch condition, forking if both sides are feasible.
@@ -432,26 +462,46 @@ func (x *Exec) decide(cond *smt.Term) bool {
 		d := x.prefix[idx]
 		x.trail = append(x.trail, d)
 		if d.Val == 1 {
-			x.pc = append(x.pc, cond)
+			x.addPC(cond)
 			return true
 		}
-		x.pc = append(x.pc, c.Not(cond))
+		x.addPC(c.Not(cond))
 		return false
 	}
 	if x.concrete != nil {
 		x.abort(AbortEngine, "symbolic branch in concrete mode: %s", cond)
 	}
 	x.debugCheckPC("decide-entry " + cond.String())
-	rT, _ := x.check(cond, nil)
-	if rT == smt.Unsat {
+	notc := c.Not(cond)
+	feasT, feasF := false, false
+	var mT, mF map[string]uint64
+	if v, ok := x.evalModel(cond); ok {
+		if v == 1 {
+			feasT, mT = true, x.model
+		} else {
+			feasF, mF = true, x.model
+		}
+	}
+	if !feasT {
+		r, m := x.checkM(cond)
+		feasT, mT = r != smt.Unsat, m
+	}
+	if !feasT {
 		x.trail = append(x.trail, Decision{0, DBranch})
-		x.pc = append(x.pc, c.Not(cond))
+		x.pc = append(x.pc, notc)
+		if mF == nil {
+			x.model = nil // the cached model (if any) satisfied neither side's bookkeeping; drop it
+		}
 		return false
 	}
-	rF, _ := x.check(c.Not(cond), nil)
-	if rF == smt.Unsat {
+	if !feasF {
+		r, m := x.checkM(notc)
+		feasF, mF = r != smt.Unsat, m
+	}
+	if !feasF {
 		x.trail = append(x.trail, Decision{1, DBranch})
 		x.pc = append(x.pc, cond)
+		x.model = mT
 		return true
 	}
 	// both feasible (or unknown: keep both, sound for "holds")
@@ -459,6 +509,7 @@ func (x *Exec) decide(cond *smt.Term) bool {
 	x.pending = append(x.pending, alt)
 	x.trail = append(x.trail, Decision{1, DBranch})
 	x.pc = append(x.pc, cond)
+	x.model = mT
 	return true
 }
 
@@ -517,7 +568,7 @@ func (x *Exec) concretizeTerm(t *smt.Term) uint64 {
 	if idx < len(x.prefix) {
 		d := x.prefix[idx]
 		x.trail = append(x.trail, d)
-		x.pc = append(x.pc, c.Eq(t, c.BV(d.Val, t.W)))
+		x.addPC(c.Eq(t, c.BV(d.Val, t.W)))
 		return d.Val
 	}
 	if x.concrete != nil {
@@ -552,7 +603,7 @@ func (x *Exec) concretizeTerm(t *smt.Term) uint64 {
 		x.pending = append(x.pending, alt)
 	}
 	x.trail = append(x.trail, Decision{vals[0], DValue})
-	x.pc = append(x.pc, c.Eq(t, c.BV(vals[0], t.W)))
+	x.addPC(c.Eq(t, c.BV(vals[0], t.W)))
 	return vals[0]
 }
 
@@ -644,7 +695,7 @@ func (x *Exec) assert(v value, id string, pos string) {
 				r.SamplePC = append(r.SamplePC, p.String())
 			}
 		}
-		x.pc = append(x.pc, t)
+		x.addPC(t)
 	case smt.Sat:
 		v := Violation{ID: id, Harness: x.harness, Model: model, Trail: append([]Decision{}, x.trail...), Pos: pos}
 		for _, p := range x.pc {
@@ -660,7 +711,7 @@ func (x *Exec) assert(v value, id string, pos string) {
 		if r2 == smt.Unsat {
 			x.abort(AbortStop, "assertion %s is false on this path", id)
 		}
-		x.pc = append(x.pc, t)
+		x.addPC(t)
 	default:
 		x.abort(AbortUnknown, "solver %s on assertion %s (%s)", res, id, x.S.LastErr)
 	}
